@@ -236,7 +236,7 @@ PROPS = {
         "streams": [macro_stream(nontrivial=["c20-suspended", "c20-dropped", "c20-resumed"], quick=300,
                                  what="L2 with manual polling: real #[cache_async] functions whose bodies have 1-3 await points (a gate future) are polled until they suspend at a chosen await; while suspended a conditional invalidation of the same cache must complete on another thread (3 s watchdog), arbitrary other calls (same and other arguments) and invalidations run, then the call is resumed or dropped; outputs and the dump of every cache instance compared with Cachelito.aStep per operation"), static_stream(),
                     sched_stream(nontrivial=["concurrent-call"], quick=(6, 4, 80),
-                                 what="L3: real threads run async calls (each suspends at the awaits of its body and stores on resumption) against group and conditional invalidations of the same cache under the deterministic scheduler; at quiescence every async cache must be consistent (store = queue as sets, no duplicates, within its limit)")],
+                                 what="L3: real threads run async calls (each suspends at the awaits of its body and stores on resumption) against group and conditional invalidations of the same cache under the deterministic scheduler; at quiescence every async cache must be consistent (store = queue as sets, no duplicates, within its limit)"), hammer_stream()],
         "monitors": ["C20"],
         "rule": "episodes over real async generated functions with begin / resume / drop operations at every await point (k-th of 1..3) interleaved with other operations; non-trivial = a call actually suspended in its body, resumed, or dropped",
         "level_text": "Lean theorems: (locks) after any complete operation skeleton - in particular the lookup phase of an async call - the held set is empty, and threads that hold nothing and are never scheduled cannot block the others (C17.suspended_holds_nothing, progress_despite_suspended); (data) over the model of suspended calls (Async.lean: lookup phase, pending record, finish phase on the CURRENT state): a call begun and resumed at once is exactly an ordinary call; the lookup phase adds or changes no entry; every entry of every cache comes from a COMPLETED call (a value no completed call produced is nowhere); begin; h; drop leaves exactly the state of `lookup only; h` for every history h (pending records never influence other operations); a resume is the ordinary store on the current state, preserves the invariant and the entry limit, returns the body value and (async) leaves the fresh entry stored unless rejected or oversize. The model is compared with the real code per operation.",
